@@ -18,7 +18,7 @@ V(p, r, i) == [prop |-> p, rule |-> r, line |-> l, exec |-> x, info |-> ToString
 Chk(c, p, r, i) == IF c THEN {} ELSE {V(p, r, i)}
 Result(s, v) == [s |-> s, v |-> v]
 
-FreshState == [tc |-> [store |-> "", mode |-> "", stateful |-> TRUE], holder |-> -1, inside |-> {}, live |-> {},
+FreshState == [tc |-> [store |-> "", mode |-> "", stateful |-> TRUE, obs |-> TRUE], holder |-> -1, inside |-> {}, live |-> {},
                locks |-> 0, enters |-> 0, leakReports |-> 0]
 Overlap(a, b) == a.hi = b.hi /\ a.lo < b.lo + b.len /\ b.lo < a.lo + a.len
 
@@ -33,11 +33,12 @@ OnUnlock(e) ==
     \cup Chk(e.t \notin st.inside, "C13", "UnlockOnlyAfterLeaving", <<e.t>>))
 OnEnter(e) ==
   Result([st EXCEPT !.inside = @ \cup {e.t}, !.enters = @ + 1],
-    Chk(~st.tc.stateful \/ st.holder = e.t, "C13", "EnterHoldsMutex", <<e.op, e.t, st.holder>>)
+    \* (obs: the storage's mutex is the instrumented one; the library's default mutex shows only by its effect)
+    Chk(~st.tc.stateful \/ ~st.tc.obs \/ st.holder = e.t, "C13", "EnterHoldsMutex", <<e.op, e.t, st.holder>>)
     \cup Chk(~st.tc.stateful \/ st.inside = {}, "C13", "AtMostOneInside", <<e.op, e.t, st.inside>>))
 OnExit(e) ==
   Result([st EXCEPT !.inside = @ \ {e.t}],
-    Chk(~st.tc.stateful \/ st.holder = e.t, "C13", "ExitHoldsMutex", <<e.op, e.t, st.holder>>))
+    Chk(~st.tc.stateful \/ ~st.tc.obs \/ st.holder = e.t, "C13", "ExitHoldsMutex", <<e.op, e.t, st.holder>>))
 OnTalloc(e) ==
   LET rec == [id |-> e.id, hi |-> e.hi, lo |-> e.lo, len |-> e.len]
       clash == {a \in st.live : Overlap(a, rec)}
@@ -50,7 +51,7 @@ OnTend(e) ==
   Result(st,
     Chk(st.holder = -1 /\ st.inside = {}, "C13", "BalancedLocking", <<st.holder, st.inside>>)
     \cup Chk(st.live = {}, "X", "HarnessLeftAllocations", <<Cardinality(st.live)>>)
-    \cup Chk(~(st.tc.stateful /\ st.enters > 0) \/ st.locks > 0, "C13", "StatefulTakesLock", <<st.locks, st.enters>>))
+    \cup Chk(~(st.tc.stateful /\ st.tc.obs /\ st.enters > 0) \/ st.locks > 0, "C13", "StatefulTakesLock", <<st.locks, st.enters>>))
 \* leak reports of the stateless low-level allocators at process exit: the net must be zero
 OnH(e) ==
   IF e.k = "leak" /\ ~st.tc.stateful
